@@ -287,6 +287,12 @@ def discharge(pc, goal, axioms=(), timeout_ms=10000, inputs=None):
     st, model, backend, dt, smt2 = check_sat(
         list(axioms) + list(pc) + [z3.Not(goal)], z3_ms=min(2500, timeout_ms), cvc5_ms=timeout_ms, value_terms=inputs, want_model=True
     )
+    if st == "unknown":
+        # last resort before reporting `undecided`: both budgets are wall-clock and a busy machine
+        # can starve a query that needs a fraction of them; give z3 one long run
+        st, model, backend, dt2, smt2 = check_sat(list(axioms) + list(pc) + [z3.Not(goal)], z3_ms=6 * timeout_ms // 2, cvc5_ms=100, value_terms=inputs, want_model=True)
+        dt += dt2
+        backend = backend + "(retry)"
     if st == "unsat":
         return "discharged", None, dt, backend, None
     if st == "sat":
